@@ -62,8 +62,36 @@ func c18Variants(id string) []*Program {
 		b.Inj("InitZ", PtrTo(t), false, false, nil, ItemRef(b.Func(0, "NewShortPtr", PtrTo(t), false, false).ID))
 		vs = append(vs, b.P)
 	}
+	{ // accepted: helpers declared in the injector file (copied into the output) whose names are
+		// exactly the import name, the local names and the value-variable name that the NEXT
+		// variant's output uses
+		b := NewPB(id, "app")
+		t := b.Carrier(0, "Short")
+		f := b.Func(0, "NewShort", t, false, false)
+		b.Inj("Init", t, false, false, nil, ItemRef(f.ID))
+		b.P.InjRaw = "func liba() string { return \"helper\" }\n\nvar dep, top = 1, 2\n\nvar _wireOtherValue = \"user-owned\"\n\ntype short struct{}\n"
+		vs = append(vs, b.P)
+	}
+	{ // accepted: imports package liba, has locals dep/short/top and a value variable _wireOtherValue
+		b := NewPB(id, "app", "liba")
+		dep := b.Carrier(1, "Dep")
+		nd := b.Func(1, "NewDep", dep, false, false)
+		sh := b.Carrier(0, "Short")
+		ns := b.Func(0, "NewShort", sh, false, false, dep)
+		ot := b.Carrier(0, "Other")
+		ov := b.Value(ot)
+		top := b.Carrier(0, "Top")
+		nt := b.Func(0, "NewTop", top, false, false, sh, ot)
+		b.Inj("Init", top, false, false, nil, refs(nd, ns, ov, nt)...)
+		vs = append(vs, b.P)
+	}
 	return vs
 }
+
+// c18Accepted lists the variants wire accepts.
+var c18Accepted = map[int]bool{0: true, 1: true, 4: true, 5: true, 6: true}
+
+const c18NVariants = 7
 
 type histStep struct {
 	Op  string // switch gen diff check delete damage
@@ -84,12 +112,12 @@ func (h histStep) String() string {
 func genHistory(e *Env, i, length int) []histStep {
 	r := Rng(e.Seed, "c18", i)
 	var hs []histStep
-	hs = append(hs, histStep{Op: "switch", Var: i % 5})
+	hs = append(hs, histStep{Op: "switch", Var: i % c18NVariants})
 	damages := []string{"stale", "noncompiling", "truncated", "garbage", "tail", "longer-variant"}
 	for len(hs) < length {
 		switch x := r.Intn(12); {
 		case x < 3:
-			hs = append(hs, histStep{Op: "switch", Var: r.Intn(5)})
+			hs = append(hs, histStep{Op: "switch", Var: r.Intn(c18NVariants)})
 		case x < 7:
 			hs = append(hs, histStep{Op: "gen"})
 			if r.Intn(2) == 0 {
@@ -106,7 +134,13 @@ func genHistory(e *Env, i, length int) []histStep {
 		}
 	}
 	// every history ends with a successful regeneration and a diff
-	hs = append(hs, histStep{Op: "switch", Var: []int{0, 1, 4, 1}[(i/4)%4]}, histStep{Op: "gen"}, histStep{Op: "gen"}, histStep{Op: "diff"})
+	// (some end with a regeneration of one accepted variant right after another's)
+	tails := [][]int{{0}, {1}, {4}, {5, 6}, {6, 5}, {1, 4}, {4, 1}, {0, 6}}
+	tl := tails[i%len(tails)]
+	for _, v := range tl[:len(tl)-1] {
+		hs = append(hs, histStep{Op: "switch", Var: v}, histStep{Op: "gen"})
+	}
+	hs = append(hs, histStep{Op: "switch", Var: tl[len(tl)-1]}, histStep{Op: "gen"}, histStep{Op: "gen"}, histStep{Op: "diff"})
 	return hs
 }
 
@@ -119,7 +153,7 @@ func CheckC18(e *Env) int {
 	// fresh-checkout references
 	variants := c18Variants("hist")
 	ref := make([][]byte, len(variants))
-	for _, v := range []int{0, 1, 4} {
+	for _, v := range []int{0, 1, 4, 5, 6} {
 		root := filepath.Join(e.Scratch, "c18ref", fmt.Sprint(v))
 		os.MkdirAll(root, 0o755)
 		prepareModule(e, root, []*Program{variants[v]})
@@ -166,7 +200,7 @@ func CheckC18(e *Env) int {
 			if violated {
 				return
 			}
-			accepted := cur == 0 || cur == 1 || cur == 4
+			accepted := c18Accepted[cur]
 			fstate := "absent"
 			switch {
 			case file == nil:
@@ -220,7 +254,7 @@ func CheckC18(e *Env) int {
 				case "tail":
 					// the up-to-date content followed by extra bytes
 					base := ref[1]
-					if cur == 0 || cur == 1 || cur == 4 {
+					if c18Accepted[cur] {
 						base = ref[cur]
 					}
 					b = append(append([]byte(nil), base...), []byte("\nfunc leftoverTail() {}\n")...)
